@@ -256,10 +256,18 @@ def keepers(only=None) -> int:
 
 
 def seeded(only=None, all_checks: bool = False) -> int:
-    """Apply each seeded change to a scratch worktree and run the owning check."""
-    failures = 0
+    """Apply each seeded change to a scratch worktree and run the owning check (VERIF_SELFTEST_JOBS at a time, default 3)."""
+    from concurrent.futures import ThreadPoolExecutor  # noqa: PLC0415
+
     metas = sorted(glob.glob(os.path.join(core.VERIF, "seeded", "*", "meta.json")))
-    for mp in metas:
+    jobs = int(os.environ.get("VERIF_SELFTEST_JOBS", "3") or 3)
+    with ThreadPoolExecutor(max_workers=jobs) as pool:
+        return sum(pool.map(lambda mp: _seeded_one(mp, only, all_checks), metas))
+
+
+def _seeded_one(mp, only, all_checks) -> int:
+    failures = 0
+    for mp in [mp]:
         d = os.path.dirname(mp)
         meta = json.load(open(mp))
         sid = os.path.basename(d)
